@@ -231,6 +231,35 @@ fn low_order_recipient(ctx: &Ctx) {
             ctx.sample("low-order recipient via CLI", 1, || case());
         }
     }
+    // the key a file is encrypted to is the one the user NAMED: keyrings with near-twin names
+    for (i, (twin, target)) in [("Bob", "bob"), ("bob", "Bob"), ("bob ", "bob"), ("b\u{f6}b", "bob"), ("bob2", "bob")].iter().enumerate() {
+        let alice = Ident::new("alice", "apw", &mut rng);
+        let other = Ident::new(twin.trim_end(), "x", &mut rng);
+        let wanted = Ident::new(target, "y", &mut rng);
+        if other.name == wanted.name {
+            continue;
+        }
+        for order in 0..2 {
+            let kr = if order == 0 { crate::cli::keyring_text(&[(&alice, true), (&other, false), (&wanted, false)]) } else { crate::cli::keyring_text(&[(&wanted, false), (&alice, true), (&other, false)]) };
+            wd.write("twins.txt", kr.as_bytes());
+            wd.write("p.txt", b"for the named key only");
+            let o = Cmd::new(&wd.path, &["encrypt", "p.txt", "-t", target, "-f", "alice", "-k", "twins.txt", "--env-pass"]).pass("apw").run();
+            ctx.eval();
+            let case = || json!({"keyring_names": ["alice", other.name, wanted.name], "order": order, "addressed": target, "exit": o.exit.describe(), "stderr": o.stderr_s()});
+            if o.exit != Exit::Code(0) {
+                ctx.violation("C05:cli:encrypt-to-a-named-key-failed", case());
+                continue;
+            }
+            let right = refspec::decode_key_file(&o.stdout, &wanted.sk, &wanted.pk).map(|d| d.body.complete()).unwrap_or(false);
+            let wrong = refspec::decode_key_file(&o.stdout, &other.sk, &other.pk).is_ok();
+            if !right || wrong {
+                ctx.violation("C05:cli:file-encrypted-to-another-key-than-the-one-named", case());
+            } else {
+                ctx.seen("cli: file decrypts only under the key that was named");
+                ctx.distinct(&format!("named|{}|{}", i, order));
+            }
+        }
+    }
     // sanity of the oracle's low-order list: each is really low order for a clamped scalar
     for lo in &low {
         if x25519_raw(&rng.arr32(), lo) != [0u8; 32] {
@@ -258,4 +287,5 @@ pub fn run(ctx: &Ctx) {
     ctx.require("forger rejected", 100);
     ctx.require("low-order recipient refused by key_encrypt", 14);
     ctx.require("low-order recipient refused by the CLI", 14);
+    ctx.require("cli: file decrypts only under the key that was named", 6);
 }
